@@ -129,9 +129,9 @@ func (exec *BatchExecutor) HandleRequest(ctx context.Context, req *kmip.RequestM
 	chain = func(i int) Next {
 		return func(ctx context.Context, rm *kmip.RequestMessage) (*kmip.ResponseMessage, error) {
 			if i < len(exec.middlewares) {
-				return exec.middlewares[i](chain(i+1), ctx, req)
+				return exec.middlewares[i](chain(i+1), ctx, rm)
 			}
-			return exec.handleRequest(ctx, req)
+			return exec.handleRequest(ctx, rm)
 		}
 	}
 
